@@ -1827,7 +1827,7 @@ Proof.
     + clear - WG Hnv. induction G as [|g r IH]; [reflexivity|].
       cbn [forallb] in WG. apply andb_true_iff in WG as [Wg Wr].
       cbn [map forallb]. rewrite IH, wf_upd_group by auto. reflexivity.
-    + unfold blob_size. cbn [bl_groups]. rewrite groups_size_upd. clear_bools. lia.
+    + unfold blob_size. cbn [bl_groups]. rewrite groups_size_upd. blia.
   - destruct (existsb (gmatch kind pm bm) G) eqn:GM.
     + destruct (gmatch_split kind pm bm G GM) as (G1 & sg & vr & ex & T1 & t & T2 & G2 & -> & M & N & N2).
       rewrite last_group_match_full_split by auto.
@@ -1839,20 +1839,20 @@ Proof.
       set (g' := TokGroup sg vr ex (T1 ++ ins_tok k nv t :: T2)).
       set (g := TokGroup sg vr ex (T1 ++ t :: T2)) in *.
       assert (gS' : group_size g' = group_size g + 8).
-      { unfold g', g. cbn [group_size]. rewrite !types_size_app, !types_size_cons, ins_tok_size. lia. }
+      { unfold g', g. cbn [group_size]. rewrite !types_size_app, !types_size_cons, ins_tok_size. blia. }
       assert (GS' : groups_size (G1 ++ g' :: G2) = groups_size (G1 ++ g :: G2) + 8).
-      { rewrite !groups_size_app, !groups_size_cons. lia. }
-      rewrite GS'. replace (groups_size (G1 ++ g :: G2) + 8 - groups_size (G1 ++ g :: G2)) with 8 by lia.
+      { rewrite !groups_size_app, !groups_size_cons. blia. }
+      rewrite GS'. replace (groups_size (G1 ++ g :: G2) + 8 - groups_size (G1 ++ g :: G2)) with 8 by blia.
       destruct (8 >? zlen S) eqn:Eroom; [exact W|]. cbn [fst].
       apply wf_blob_intro; cbn [bl_h1 bl_h2 bl_groups bl_slack]; auto.
       * apply forallb_mid; auto. unfold g', wf_group. fold g'. rewrite gS'.
         rewrite Lsg, Lvr, Osg, Ovr, Oex. cbn [Z.eqb Pos.eqb andb].
-        replace (16 + zlen ex <? 2 ^ 16) with true by lia. cbn [andb].
+        replace (16 + zlen ex <? 2 ^ 16) with true by blia. cbn [andb].
         rewrite forallb_mid; auto.
         -- cbn [andb]. pose proof (groups_size_nonneg G1). pose proof (groups_size_nonneg G2).
-           rewrite groups_size_app, groups_size_cons in B2. clear_bools. lia.
-        -- apply wf_ins_tok; auto. lia.
-      * unfold blob_size. cbn [bl_groups]. rewrite GS', zlen_zskipn by lia. clear_bools. lia.
+           rewrite groups_size_app, groups_size_cons in B2. blia.
+        -- apply wf_ins_tok; auto. blia.
+      * unfold blob_size. cbn [bl_groups]. rewrite GS', zlen_zskipn by blia. blia.
     + rewrite last_group_match_full_none by auto.
       unfold upsert_spec. rewrite CH. rewrite ins_last_group_none by auto.
       set (nt := new_type kind pm bm k nv).
@@ -1867,27 +1867,27 @@ Proof.
         set (g := TokGroup sg vr ex tys) in *.
         assert (gS' : group_size g' = group_size g + 24).
         { unfold g', g. cbn [group_size]. rewrite !types_size_app, !types_size_cons.
-          change (ty_size nt) with 24. change (types_size []) with 0. lia. }
+          change (ty_size nt) with 24. change (types_size []) with 0. blia. }
         assert (GS' : groups_size (G1 ++ g' :: G2) = groups_size (G1 ++ g :: G2) + 24).
-        { rewrite !groups_size_app, !groups_size_cons. lia. }
-        rewrite GS'. replace (groups_size (G1 ++ g :: G2) + 24 - groups_size (G1 ++ g :: G2)) with 24 by lia.
+        { rewrite !groups_size_app, !groups_size_cons. blia. }
+        rewrite GS'. replace (groups_size (G1 ++ g :: G2) + 24 - groups_size (G1 ++ g :: G2)) with 24 by blia.
         destruct (24 >? zlen S) eqn:Eroom; [exact W|]. cbn [fst].
         apply wf_blob_intro; cbn [bl_h1 bl_h2 bl_groups bl_slack]; auto.
         -- apply forallb_mid; auto. unfold g', wf_group. fold g'. rewrite gS'.
            rewrite Lsg, Lvr, Osg, Ovr, Oex. cbn [Z.eqb Pos.eqb andb].
-           replace (16 + zlen ex <? 2 ^ 16) with true by lia. cbn [andb].
+           replace (16 + zlen ex <? 2 ^ 16) with true by blia. cbn [andb].
            rewrite forallb_app. cbn [forallb]. rewrite WT, Wnt. cbn [andb].
            pose proof (groups_size_nonneg G1). pose proof (groups_size_nonneg G2).
-           rewrite groups_size_app, groups_size_cons in B2. clear_bools. lia.
-        -- unfold blob_size. cbn [bl_groups]. rewrite GS', zlen_zskipn by lia. clear_bools. lia.
+           rewrite groups_size_app, groups_size_cons in B2. blia.
+        -- unfold blob_size. cbn [bl_groups]. rewrite GS', zlen_zskipn by blia. blia.
       * rewrite add_type_last_none by (apply no_tok_forallb; auto).
         assert (GS' : groups_size (G ++ [new_group nt]) = groups_size G + 40).
         { rewrite groups_size_app, groups_size_cons. change (groups_size []) with 0. unfold new_group. cbn [group_size].
           rewrite types_size_cons. change (ty_size nt) with 24. change (types_size []) with 0.
-          change (zlen (@nil Z)) with 0. lia. }
-        rewrite GS'. replace (groups_size G + 40 - groups_size G) with 40 by lia.
+          change (zlen (@nil Z)) with 0. blia. }
+        rewrite GS'. replace (groups_size G + 40 - groups_size G) with 40 by blia.
         destruct (40 >? zlen S) eqn:Eroom; [exact W|]. cbn [fst].
         apply wf_blob_intro; cbn [bl_h1 bl_h2 bl_groups bl_slack]; auto.
         -- rewrite forallb_app. cbn [forallb]. rewrite WG, wf_new_group by auto. reflexivity.
-        -- unfold blob_size. cbn [bl_groups]. rewrite GS', zlen_zskipn by lia. clear_bools. lia.
+        -- unfold blob_size. cbn [bl_groups]. rewrite GS', zlen_zskipn by blia. blia.
 Qed.
